@@ -465,6 +465,13 @@ def s6(chk: Check, proj: Project, m) -> None:
     chk.ob("S6", "util.template_tag:resolve_params:mapping-abc", m.loc(first) if first is not None else m.loc(f), ok,
            "mappings are recognised with the Mapping ABC" if ok else
            f"spread values are treated as keyword sources only if `{short(first.test) if first is not None else '?'}`: a non-dict mapping (MappingProxyType, ChainMap, os.environ, request.headers) is spread as POSITIONAL arguments (its keys)")
+    # nothing in front of the type dispatch lets a value slip through: the raise for "cannot be spread" depends on the TYPE only
+    rs_ = [r for r in ast.walk(f) if isinstance(r, ast.Raise) and any(t.startswith(f"isinstance({rv},") and not pol for t, pol in cond_atoms(r))]
+    if rs_:
+        extra_ = [(t, pol) for t, pol in cond_atoms(rs_[0]) if rv in t and not t.startswith("isinstance(")]
+        chk.ob("S6", "util.template_tag:resolve_params:non-spreadable-always-raises", m.loc(rs_[0]), not extra_,
+               "whether a spread value is refused depends on its type alone" if not extra_ else
+               f"the refusal is reached only if `{('' if extra_[0][1] else 'not ') + extra_[0][0]}`: a falsy value that cannot be spread (None, 0, False) is silently skipped - `{{% tag ...attrs %}}` with attrs=None calls render as if the spread were absent, where Python's f(**None) raises TypeError")
     second = first.orelse[0] if first is not None and first.orelse and isinstance(first.orelse[0], ast.If) else None
     ok2 = second is not None and norm(second.test) == f"isinstance({rv}, Iterable)" and second.orelse and isinstance(second.orelse[-1], ast.Raise)
     chk.ob("S6", "util.template_tag:resolve_params:iterable-then-raise", m.loc(second) if second is not None else m.loc(f), ok2, "other iterables are spread positionally; anything else raises")
